@@ -40,6 +40,7 @@ func rulesC01(c *Ctx) {
 	ruleToFloatIdentity(c, "C01.TOFLOAT")
 	ruleSeekOnlyAnyOf(c, "C01.SEEKANYOF")
 	ruleChainLeaf(c, "C01.CHAINLEAF")
+	ruleSeekFromArgument(c, "C01.SEEKARG")
 	ruleRawEntitiesCursor(c, "C01.RAWROWS")
 	ruleNeverWritten(c, "C01.FIELDS", astNodeTypes(c))
 	cts := c.cursorTypes()
